@@ -238,6 +238,15 @@ pub unsafe extern "C" fn write(fd: c_int, buf: *const c_void, n: size_t) -> ssiz
     let info = fd_info(fd);
     if let Some((_, rel)) = &info {
         if let Some(e) = mutating(&format!("write\t{rel}\t{n}")) {
+            if n < 2 && FAIL_SHORT.load(Ordering::SeqCst) && FAIL_SHORT_NO_ERROR.load(Ordering::SeqCst) {
+                // nothing to cut: in the no-error mode the call simply goes through
+                FAIL_SHORT.store(false, Ordering::SeqCst);
+                FAIL_AT.store(u64::MAX - 1, Ordering::SeqCst);
+                let f = real!("write", extern "C" fn(c_int, *const c_void, size_t) -> ssize_t);
+                let r = f(fd, buf, n);
+                refresh(fd, false);
+                return r;
+            }
             if n >= 2 && FAIL_SHORT.swap(false, Ordering::SeqCst) {
                 let bytes = unsafe { std::slice::from_raw_parts(buf as *const u8, n) };
                 let sel = CUT_SEL.load(Ordering::Relaxed);
